@@ -76,6 +76,8 @@ for _p in PROPS:
 # (Chk17/Chk20 are explicit targets so that the case evaluator exists even when a re-proved table lemma breaks)
 prop("C17", translator=True, extra_targets=["Chk17.vo"])
 prop("C20", translator=True, extra_targets=["Chk20.vo"])
+# C19: relational runs judged by Chk19; the translator refreshes the advisory scan Generated.nondet_sources
+prop("C19", translator=True, extra_targets=["Chk19.vo"])
 
 
 class Lock:
@@ -220,6 +222,23 @@ def prove(pid, info):
         failing = "%s:%s" % (m.group(1), m.group(2)) if m else "make failed"
     return dict(ok=ok, rc=rc, obligations=n_thm, discharged=closed if rc == 0 else 0, theorems=names,
                 axioms=sorted(set(axioms)), bad_axioms=bad_axioms, output=out[-6000:], failing=failing, wall_s=dt)
+
+
+def run_coqchk(pid):
+    """thorough tier: re-check the compiled closure of the property file with the independent checker
+    and read the axioms it reports (none are expected)"""
+    with Lock("coq"):
+        t0 = time.time()
+        try:
+            rc, out = sh(["coqchk", "-o", "-silent", "-Q", ".", "Verif", "Verif.Properties.%s" % pid], cwd=COQ, timeout=3000)
+        except subprocess.TimeoutExpired:
+            return dict(ok=False, axioms=["coqchk timed out"], wall_s=3000)
+    m = re.search(r"\* Axioms:\s*(.*?)\n\s*\n", out, re.S)
+    ax = m.group(1).strip() if m else "(no summary)"
+    clean = all(re.search(r"\* %s:\s*<none>" % re.escape(k), out) for k in
+                ("Axioms", "Constants/Inductives relying on type-in-type", "Constants/Inductives relying on unsafe (co)fixpoints",
+                 "Inductives whose positivity is assumed"))
+    return dict(ok=(rc == 0 and clean), axioms=[] if ax == "<none>" else [ax], wall_s=round(time.time() - t0, 1), tail=out[-800:])
 
 
 def build_harness(pid):
@@ -419,6 +438,14 @@ def main():
     pr = prove(pid, info)
     print("[%s] proofs: %d/%d theorems closed%s (%.1fs)" % (pid, pr["discharged"], pr["obligations"],
           "" if pr["ok"] else "  ** BROKEN at %s **" % pr["failing"], pr["wall_s"]))
+
+    if tier == "thorough" and pr["rc"] == 0 and not replay:
+        ck = run_coqchk(pid)
+        print("[%s] coqchk -o on the closure of Properties/%s.vo: %s (%.0fs)" % (pid, pid, "clean, Axioms: <none>" if ck["ok"] else "NOT CLEAN " + str(ck["axioms"]), ck["wall_s"]))
+        notes.append("coqchk -o: " + ("Axioms: <none>; no type-in-type, no unsafe fixpoints, no assumed positivity" if ck["ok"] else "NOT CLEAN: " + ck.get("tail", "")[-300:]))
+        if not ck["ok"]:
+            pr["ok"] = False
+            pr["failing"] = pr["failing"] or "coqchk"
 
     # 3. implementation
     stats = cases = None
